@@ -66,6 +66,9 @@ var c36Paths = []string{
 	"/dashboard", "/dashboard/", "/dashboard/index.html", "/equity", "/equity/x",
 }
 
+// the documented cache window (the statement's number, not the code's constant)
+const c36Window = 5 * time.Minute
+
 var c36LocalOnly = []string{"/backup-wallet", "/restore-wallet", "/list-access-tokens"}
 
 var c36Ages = []int64{1000, 60000, 150000, 299000, 300000, 300001, 360000, 600000} // ms
@@ -393,7 +396,7 @@ func (e *c36Env) exec(c c36Case, x *pbt.Ctx) error {
 						match = in
 						if in.live {
 							valid = true
-						} else if in.used && clock-in.deletedAt <= authn.VerifTokenExpiry {
+						} else if in.used && clock-in.deletedAt <= c36Window {
 							cachedOK = true
 						}
 					}
